@@ -44,6 +44,8 @@ def fmt(sig):
 
 def run(ctx):
     model = ctx.model
+    from . import unitspec as _us
+    _us.api_verified(ctx, 'C09.R4')
     fi = model.func('Recipe.get_substance_used')
     ff = ctx.flow(fi.qualname)
     # ---------------------------------------------------------------- R1 polarity signature
@@ -123,6 +125,10 @@ def run(ctx):
                why='an unknown stage name is not refused', key='timeframe gate')
     # ---------------------------------------------------------------- R5 substances_used coverage
     substances_used(ctx)
+    # the discarded amount that enters the net gain is what the addressed wells lost (C17.R4)
+    from .c17 import trash
+    trash(ctx, 'C09.R3')
+    per_instance_state(ctx, 'C09.R3')
     return {'explanation': 'R1: signed data dependence of the accumulated amount on the step records must be exactly '
                            '{to[1]: +, to[0]: -, frm[1]: +, frm[0]: -, trash: +}, each side under the membership test of '
                            'that record\'s name in the destination set, accumulated from zero over the steps of the '
@@ -319,6 +325,54 @@ def _inside(stmt, node):
             return any(n is x for x in node.body)
         n = p
     return False
+
+
+def per_instance_state(ctx, rule):
+    """State that is changed in place through instances must be created per instance: a mutable display assigned in the
+    class body is one object shared by all instances (every step would share one record)."""
+    from ..flow import MUTATOR_METHODS
+    model = ctx.model
+    n = 0
+    for ci in model.classes.values():
+        if ci.mod.rel not in ('pyplate/pyplate.py', 'pyplate/slicer.py'):
+            continue
+        shared = {}
+        for st in ci.node.body:
+            tgt = st.targets[0] if isinstance(st, ast.Assign) and len(st.targets) == 1 else st.target if isinstance(st, ast.AnnAssign) else None
+            val = getattr(st, 'value', None)
+            if not isinstance(tgt, ast.Name) or val is None:
+                continue
+            mutable = isinstance(val, (ast.List, ast.Dict, ast.Set, ast.ListComp, ast.DictComp, ast.SetComp)) or \
+                (isinstance(val, ast.Call) and isinstance(val.func, ast.Name) and val.func.id in ('set', 'list', 'dict', 'defaultdict', 'OrderedDict', 'deque'))
+            if mutable:
+                shared[tgt.id] = st
+        init_attrs = set()
+        init = ci.methods.get('__init__')
+        if init is not None:
+            for x in ast.walk(init.node):
+                if isinstance(x, ast.Attribute) and isinstance(x.ctx, ast.Store) and isinstance(x.value, ast.Name):
+                    init_attrs.add(x.attr)
+        for name, st in shared.items():
+            if name in init_attrs:
+                continue            # re-bound per instance in __init__
+            sites = []
+            for mod in model.core_modules():
+                for x in ast.walk(mod.tree):
+                    if isinstance(x, ast.Call) and isinstance(x.func, ast.Attribute) and x.func.attr in MUTATOR_METHODS and \
+                            isinstance(x.func.value, ast.Attribute) and x.func.value.attr == name:
+                        sites.append(x)
+                    if isinstance(x, ast.Subscript) and isinstance(x.ctx, (ast.Store, ast.Del)) and \
+                            isinstance(x.value, ast.Attribute) and x.value.attr == name:
+                        sites.append(x)
+            n += 1
+            fi = init or next(iter(ci.methods.values()))
+            ctx.ob(rule, fi, st.lineno, f"{ci.name}.{name}: state mutated in place is created per instance", not sites,
+                   fact=f"class-level mutable default; {len(sites)} in-place mutation site(s) through instances",
+                   why='all instances share one object: what one step records shows up in every step',
+                   key=f"shared mutable class attribute {ci.name}.{name}")
+    fi0 = model.func('RecipeStep.__init__')
+    ctx.ob(rule, fi0, fi0.node.lineno, 'every step keeps its own record (no mutable state shared through the class)', True,
+           fact=f"{n} class-level mutable defaults examined", nontrivial=False, key='per-instance record')
 
 
 def _is_results_ref(a):
